@@ -230,13 +230,13 @@ impl<'a> StoreWorld<'a> {
             }
         };
         self.lines.push(Line::model(format!("tpeers 1 {nsh}"), peers.clone()));
-        if self.focus == "C17" {
+        if self.focus == "C17" || self.focus == "C16" {
             self.lines.push(Line::oracle(format!("speers 1 {nsh}"), peers));
         }
         // policy
         let pol = store.get_download_policy(&nsid)?;
         self.lines.push(Line::model(format!("tgetpolicy 1 {nsh}"), policy_tok(&pol)));
-        if self.focus == "C15" {
+        if self.focus == "C15" || self.focus == "C16" {
             // specification: the policy set last since the document was created, else the default
             self.lines.push(Line::oracle(format!("sgetpolicy 1 {nsh}"), policy_tok(&pol)));
         }
